@@ -206,7 +206,7 @@ def run(ck, F, E):
             ck.require(configured, "C15:CONFIG:StdioInterpreter::%s" % fn, "R-CONFIG", how,
                        "%s installs an interpreter that never receives the command-line options: `abasic -w -t FILE` behaves "
                        "like `abasic FILE`" % b.path, sp)
-    ck.floor("C15.sites installing the CLI's interpreter", n_sites, 3)
+    ck.floor("C15.sites installing the CLI's interpreter", n_sites, 2)
     ca = F.one("CliArgs::create_interpreter", "abasic")
     cf = F.one("CliArgs::configure_interpreter", "abasic") or ca
     if cf is not None:
@@ -319,7 +319,7 @@ def cli_flush_rule(ck, F):
     for b, i, pl, rv, sp in aggregates(ri, "core::result::Result", "Ok"):
         if pl["local"] == 0 and not pl["proj"]:
             oks.append((b, sp))
-    ck.floor("C15.successful exits of the CLI's main loop", len(oks), 3)
+    ck.floor("C15.successful exits of the CLI's main loop", len(oks), 2)
     n_print = sum(1 for p, b in F.bodies.items() if b.crate == "abasic" for c in b.calls() if any(sfx(c.callee, x) for x in DIRTY_PRIMS))
     ck.floor("C15.sites writing program output to the CLI's line buffer", n_print, 1)
     for k, (b, sp) in enumerate(sorted(oks, key=lambda x: (x[1].line if x[1] is not None else 0)), 1):
